@@ -178,19 +178,19 @@ CLAIMS.update({
 EXTRA = {
     "C01": " The default rule filter_after_early_return is evaluated as a whole (visitor walk included) on ~1 500 enumerated blocks and compared, for every oracle of 6 condition outcomes, with an independent reference semantics of Lua/Luau control flow (sa/astmodel.py); expressions_as_expression is additionally interpreted under short-circuit evaluation for every outcome of the kept calls.",
     "C02": " The string writer shared by the generators is decided as under C13 (every byte and the structured long forms read back by an independent reader); the separation table is decided by evaluation when it is not a plain match.",
-    "C04": " Block::remove_statement is evaluated on comment layouts (the comments a removed statement hands to the next token keep their relative lines); a callback may not apply the line shift to what its node's own shift already reaches.",
-    "C06": " The remove_continue rule is evaluated as a whole (visitor walk, loop stack, re-nesting) on ~1 500 enumerated loop nests (4 loop kinds, nested loops with and without their own continue/break, loops inside functions, do blocks) and compared, for every oracle of 7 condition outcomes, with an independent reference semantics of Lua/Luau control flow (sa/astmodel.py): no continue is left and the trace of calls and condition evaluations is unchanged.",
-    "C08": " Folded arithmetic (+ - * / // % ^ on two number literals) is tabulated on 26x26 doubles per operator against IEEE arithmetic with C's pow/floor (bit for bit, or the evaluator declines).",
-    "C10": " Every addition to the list of files to delete asks is_in_place and does not depend on the item's processing status.",
-    "C11": " Every addition to the list of files to delete (the field drained into Resources::remove) is control-dependent on is_in_place.",
+    "C04": " Block::remove_statement is evaluated on comment layouts (the comments a removed statement hands to the next token keep their relative lines); a callback may not apply the line shift to what its node's own shift already reaches. The copy of the variable that remove_compound_assignment reads on the right-hand side goes through the comment and whitespace clearing walks (a kept comment would be written twice).",
+    "C06": " The remove_continue rule is evaluated as a whole (visitor walk, loop stack, re-nesting) on ~1 500 enumerated loop nests (4 loop kinds, nested loops with and without their own continue/break, loops inside functions, do blocks) and compared, for every oracle of 7 condition outcomes, with an independent reference semantics of Lua/Luau control flow (sa/astmodel.py): no continue is left and the trace of calls and condition evaluations is unchanged. IdentifierTracker records every declared local (the shadow test behind math/string/tostring), also `local math = math`; the duplicated variable copy of remove_compound_assignment loses its trivia.",
+    "C08": " Folded arithmetic (+ - * / // % ^ on two number literals) is tabulated on 26x26 doubles per operator against IEEE arithmetic with C's pow/floor (bit for bit, or the evaluator declines). has_side_effects is true for a call placed in each operand slot of table constructors (computed keys included), binary, unary and parenthesised expressions.",
+    "C10": " Every addition to the list of files to delete asks is_in_place and does not depend on the item's processing status. Whether a work item lies under a reported directory is decided component-wise (Path::starts_with, or a helper that agrees with it on siblings sharing a textual prefix).",
+    "C11": " Every addition to the list of files to delete (the field drained into Resources::remove) is control-dependent on is_in_place. The resource layer creates, renames and deletes only the location it was given (or its parent directories): no sibling name is computed from it.",
     "C12": " The identifier predicate behind every bare-name write (is_valid_identifier) is tabulated on the reserved words and every character, non-ASCII letters included.",
     "C13": " Strings that are not valid UTF-8 are covered with every byte followed by a digit / a letter.",
     "C14": " The `[` `[[` pair (a long-bracket string used as a key) is kept apart by the separation table the generators share.",
     "C15": " Requires ending in `.` / `..` are part of the domain.",
     "C17": " expressions_as_expression is interpreted under short-circuit evaluation: every kept call runs once and in order whatever the calls return.",
     "C18": " The header's line shift reaches each token once (no callback shifts what its node's own shift already reaches).",
-    "C19": " Where the reader installs the file filters before it calls configure(), no rule's configure() -- evaluated with the metadata marked -- replaces the metadata.",
-    "C20": " Marking a work item done is never control-dependent on a per-rule filter: only the top-level filters take a file out of the pipeline.",
+    "C19": " Where the reader installs the file filters before it calls configure(), no rule's configure() -- evaluated with the metadata marked -- replaces the metadata. Functions named by `serialize_with` attributes are evaluated against a recording serializer: every element is written, once, in order.",
+    "C20": " Marking a work item done is never control-dependent on a per-rule filter: only the top-level filters take a file out of the pipeline. The per-rule filters read from a rule object reach the rule (C19.metadata's obligations, evaluated here again).",
 }
 
 NOT_APPLICABLE = {
